@@ -119,6 +119,7 @@ func (g *nsGen) genOpts() nsOpts {
 		}
 	}
 	o.seed = int64(vfhelp.Pick(g.t, "seed", 30)) + 1
+	o.eagerPool = g.coin("eagerPool")
 	return o
 }
 
